@@ -441,6 +441,48 @@ def _shrinks(crate, f):
     return False
 
 
+def single_key_removal_discipline(prog, rep, rid, fnames, what):
+    """In the single-key removal functions `fnames` (recursive descent along a literal path) the only operations that remove a value
+    or node are take_value() on the `relative_path.is_empty()` edge and trim(); anything else (drop_children, a raw remove) would
+    take out more than the one addressed entry."""
+    crate = prog.crate(WB)
+    node_fns = [f for f in crate.top_fns() if f.path.startswith(NODE + '::')]
+    shr = {short(f.path) for f in node_fns if _shrinks(crate, f)}
+    n = 0
+    for fname in fnames:
+        f = crate.fn(f'{STORE}::{fname}')
+        b = Bindings(crate, f)
+        for nd, anc in crate.walk_fn(f):
+            if nd.get('k') != 'call' or not nd['args']:
+                continue
+            c = callee(nd)
+            sh = short(c)
+            raw = sh in SHRINK_CALLS and ('HashMap' in c or 'BTreeMap' in c) and any('param(node)' in x for x in b.origins(nd['args'][0]))
+            if raw:
+                n += 1
+                rep.violation(rid, f'{fname}:{sh}', loc(f, nd), f'removes from the tree directly with {c}', key=f'{rid}/{fname}/raw/{sh}')
+                continue
+            if not c.startswith(NODE + '::') or sh not in shr:
+                continue
+            n += 1
+            if sh == 'trim':
+                rep.ok(rid, f'{fname}:trim', loc(f, nd), PRIMS['trim'])
+            elif sh == 'take_value':
+                g = guards(anc + (nd,))
+                at_end = any(it[0] == 'if' and it[2] is True and it[1].get('k') == 'call' and short(callee(it[1])) == 'is_empty' and
+                             b.origins(it[1]['args'][0]) == {'param(relative_path)'} for it in g)
+                if at_end:
+                    rep.ok(rid, f'{fname}:take_value', loc(f, nd), f'only {what} at the end of the path')
+                else:
+                    rep.violation(rid, f'{fname}:take_value', loc(f, nd), 'a value is removed at a node the path does not end at',
+                                  key=f'{rid}/{fname}/take_value')
+            else:
+                rep.violation(rid, f'{fname}:{sh}', loc(f, nd), f'Node::{sh} removes more than {what} the path addresses '
+                              '(the entries stored below it go too)', key=f'{rid}/{fname}/unreviewed/{sh}',
+                              expected='take_value() at the end of the path, trim() on the way back')
+    return n
+
+
 def rule_f(prog, rep):
     rep.rule('C04.f', 'T1', 'pattern delete removes only what the relation matched: in the delete traversals the only operations '
              'that remove a value or a node are take_value() at the end of the pattern, drop_children() in the trailing-`#` arm '
